@@ -134,6 +134,23 @@ def run(tier, seed, replay):
     outs2, crashes2 = vf.run_shards(b, ["--mode", "corpus", "--arg1", corpus, "--seed", seed], vf.NCPU, rd, tag="c", timeout=3000)
     rep.crash_violations(crashes2, prefix="corpus:")
     merge(rep, vf.pmap(judge, [(p,) for p in outs2]))
+    # the same guarantee while the crypto library's own allocations fail (OpenSSL CRYPTO_set_mem_functions / gnutls_malloc pointers):
+    # verify still returns, without memory error or leak, for valid and invalid tokens of every algorithm
+    fb = vf.driver("d_c01f", "asan")
+    fouts, fcr = vf.run_shards(fb, ["--mode", "verify", "--seed", seed, "--tier", tier], vf.NCPU, rd, tag="pf", timeout=3000,
+                               env={"ASAN_OPTIONS": vf.SAN_ENV["ASAN_OPTIONS"] + ":fast_unwind_on_malloc=0:malloc_context_size=14"})
+    rep.crash_violations(fcr, prefix="provider-fault:")
+    for pth in fouts:
+        with open(pth, errors="replace") as fh:
+            for line in fh:
+                if line.startswith('["N"'):
+                    try:
+                        ev = json.loads(line)
+                    except Exception:
+                        continue
+                    rep.count("verifies_under_provider_allocation_failure", ev[8])
+                    rep.evaluations += ev[8]
+    vf.need(rep, rep.counters.get("verifies_under_provider_allocation_failure", 0) > 3000, "provider fault stage did not run")
     if thorough:
         # uninitialised reads are invisible to ASan/UBSan: a slice of the generator under valgrind memcheck on the plain build
         pb = vf.driver("d_c06", "plain")
